@@ -373,3 +373,17 @@ package resources
 //@   assigns nothing
 //@   ensures err == nil ==> fresh(res) && fresh(res.Resources) && res.Resources != nil
 //@   ensures err != nil ==> res == nil
+
+// ---------------------------------------------------------------- quantity parsing
+
+// the value handed back is the exact mathematical product number x suffix multiplier (x 1000 for CPU without the milli
+// suffix), computed in arbitrary precision, and it is only handed back after the int64 range check
+//@ constmap multipliers props C18 : ""=1 m=1 k=1000 M=1000000 G=1000000000 T=1000000000000 P=1000000000000000 E=1000000000000000000 Ki=1024 Mi=1048576 Gi=1073741824 Ti=1099511627776 Pi=1125899906842624 Ei=1152921504606846976
+//@ func parse(value string, milli bool) (q Quantity, err error)
+//@   props C18
+//@   sweep
+//@   mode nopanic=on
+//@   at[groups] call regexp.Regexp.FindStringSubmatch#1 after: assume len(ret) == 0 || len(ret) >= 3
+//@   at[exact] call big.Int.IsInt64#1: assert bigval(arg0) == result * multipliers[suffix] * ((milli && suffix != "m") ? 1000 : 1)
+//@   at[checked] call big.Int.Int64#1: assert bigval(arg0) >= -9223372036854775808 && bigval(arg0) <= 9223372036854775807
+//@   at[same] call big.Int.Int64#1: assert arg0 == bigResult
